@@ -308,7 +308,7 @@ impl WorldGenerator for MoonBit {
             let mut ffi = Source::default();
             wit_bindgen_core::generated_preamble(&mut ffi, VERSION);
             uwriteln!(ffi, "{}", fragment.ffi);
-            for builtin in fragment.builtins {
+            for builtin in sorted_builtins(&fragment.builtins) {
                 uwriteln!(ffi, "{}", builtin);
             }
             files.push(&format!("{directory}/ffi.mbt"), indent(&ffi).as_bytes());
@@ -383,7 +383,7 @@ impl WorldGenerator for MoonBit {
         wit_bindgen_core::generated_preamble(&mut ffi, VERSION);
         uwriteln!(ffi, "{}", self.import_world_fragment.ffi);
         builtins.extend(self.import_world_fragment.builtins.iter());
-        for b in builtins.iter() {
+        for b in sorted_builtins(&builtins) {
             uwriteln!(ffi, "{}", b);
         }
         files.push(
@@ -461,7 +461,7 @@ impl WorldGenerator for MoonBit {
             wit_bindgen_core::generated_preamble(&mut ffi, VERSION);
 
             uwriteln!(&mut ffi, "{}", fragment.ffi);
-            for b in fragment.builtins.iter() {
+            for b in sorted_builtins(&fragment.builtins) {
                 uwriteln!(ffi, "{}", b);
             }
             files.push(&format!("{directory}/ffi.mbt",), indent(&ffi).as_bytes());
@@ -514,7 +514,7 @@ impl WorldGenerator for MoonBit {
             let mut export = Source::default();
             wit_bindgen_core::generated_preamble(&mut export, VERSION);
             uwriteln!(&mut export, "{}", fragment.ffi);
-            for b in fragment.builtins.iter() {
+            for b in sorted_builtins(&fragment.builtins) {
                 uwriteln!(&mut export, "{}", b);
             }
             files.push(&format!("{directory}/ffi.mbt",), indent(&export).as_bytes());
@@ -1633,6 +1633,14 @@ impl<'a, 'b> FunctionBindgen<'a, 'b> {
     fn use_ffi(&mut self, str: &'static str) {
         self.interface_gen.ffi_imports.insert(str);
     }
+}
+
+/// The FFI helpers of a fragment in a stable order: hash-set iteration order
+/// differs from process to process and must not leak into generated files.
+fn sorted_builtins(builtins: &HashSet<&'static str>) -> Vec<&'static str> {
+    let mut sorted = builtins.iter().copied().collect::<Vec<_>>();
+    sorted.sort_unstable();
+    sorted
 }
 
 impl Bindgen for FunctionBindgen<'_, '_> {
